@@ -92,8 +92,67 @@ func readActionTable(c *Ctx, dv *dev, rule string) actionTable {
 			}
 		}
 	}
+	if len(at.press) == 0 {
+		// the dispatch written out as a switch over the action (`switch action { case config.Panic: d.Panic() ... }`)
+		readActionSwitch(c, dv, "invokeActionPress", at.press, rule)
+		readActionSwitch(c, dv, "invokeActionRelease", at.release, rule)
+	}
 	at.ok = len(at.press) > 0
 	return at
+}
+
+// readActionSwitch: in the dispatcher every comparison of the action parameter with a constant opens a case whose block
+// makes exactly one call of a device function (or none: an action without a handler).
+func readActionSwitch(c *Ctx, dv *dev, name string, into map[string]*ssa.Function, rule string) {
+	fn := dv.fn[name]
+	if fn == nil || len(fn.Blocks) == 0 {
+		return
+	}
+	c.Fn(shortFn(fn))
+	isActionParam := func(v ssa.Value) bool {
+		p, ok := v.(*ssa.Parameter)
+		if !ok {
+			return false
+		}
+		n, ok := p.Type().(*types.Named)
+		return ok && n.Obj().Name() == "Action"
+	}
+	for _, b := range fn.Blocks {
+		ifi, ok := b.Instrs[len(b.Instrs)-1].(*ssa.If)
+		if !ok {
+			continue
+		}
+		bo, ok := ifi.Cond.(*ssa.BinOp)
+		if !ok || bo.Op != token.EQL {
+			continue
+		}
+		var k *ssa.Const
+		switch {
+		case isActionParam(bo.X):
+			k, _ = bo.Y.(*ssa.Const)
+		case isActionParam(bo.Y):
+			k, _ = bo.X.(*ssa.Const)
+		}
+		if k == nil || k.Value == nil {
+			continue
+		}
+		action := strings.Trim(k.Value.ExactString(), `"`)
+		var calls []*ssa.Function
+		for _, in := range b.Succs[0].Instrs {
+			if call, ok := in.(*ssa.Call); ok {
+				if callee := call.Call.StaticCallee(); callee != nil && dv.p.OwnedFunc(callee) && funcPkgPath(callee) == pkgDevice {
+					calls = append(calls, callee)
+				}
+			}
+		}
+		switch len(calls) {
+		case 0:
+		case 1:
+			into[action] = calls[0]
+		default:
+			c.Undec(rule, "device."+name+"["+action+"]", c.P.Pos(ifi.Pos()), "more than one call in the case of an action")
+		}
+	}
 }
 
 func unwrapThunk(fn *ssa.Function) *ssa.Function {
@@ -277,7 +336,7 @@ var actionOwnField = map[string][]string{
 func checkC02(c *Ctx) {
 	dv := newDev(c, "R2.0")
 	if !dv.ok || !dv.need("R2.0", []string{"NoteOn", "NoteOff", "AnalogNoteOff", "handleKEYEvent", "NewDevice", "checkDoubleActions", "Multinote"},
-		[]string{"noteTracker", "analogNoteTracker", "octave", "semitone", "channel", "mapping", "velocity", "config", "actionsPress", "actionsRelease"}) {
+		[]string{"noteTracker", "analogNoteTracker", "octave", "semitone", "channel", "mapping", "velocity", "config"}) {
 		return
 	}
 	modes := collisionModes(c, "R2.1")
